@@ -229,11 +229,11 @@ Proof. split. apply R_init. reflexivity. Qed.
    second run (K = 1) from what is left returns nil and holds all five nodes *)
 Definition is_push_fail (l : label) : bool := match l with LPush _ false => true | _ => false end.
 Example ex_run_dst :
-  let r1 := dsched ex_succ is_push_fail 400 (dinit 2 false [4] [0; 1]) [] in
+  let r1 := dsched ex_succ is_push_fail 120 (dinit 2 false [4] [0; 1]) [] in
   let x1 := fst r1 in
   existsb is_fault (map dlab (snd r1)) = true /\
   is_final (ds x1) = true /\ result (ds x1) = Some true /\ dclosedb ex_succ (dd x1) = true /\
-  let r2 := dsched ex_succ (fun _ => false) 400 (dinit 1 false [4] (dd x1)) [] in
+  let r2 := dsched ex_succ (fun _ => false) 120 (dinit 1 false [4] (dd x1)) [] in
   let x2 := fst r2 in
   drun ex_succ (dinit 1 false [4] (dd x1)) (snd r2) = Some x2 /\
   existsb is_fault (map dlab (snd r2)) = false /\ is_final (ds x2) = true /\
